@@ -7,7 +7,7 @@ from pv.gen import strings, texts, trees
 from pv.gen.base import EXOTIC
 from pv.gen import corpus
 from pv.harness import Enum, Fuzz, Hyp
-from pv.props.common import short
+from pv.props.common import debug_logging, short
 from pv.ref import lex as rlex
 
 ID = 'C08'
@@ -64,6 +64,9 @@ def _tiling(toks, lines, label, f):
 
 
 def check(case):
+    if case.get('debug'):
+        with debug_logging():           # penman -vvv: the lexer logs every token; the tokens must be the same
+            return [(k + '@debug-logging', d) for k, d in check(dict(case, debug=False))]
     s = case['s']
     f = []
     lines = rlex.split_lines(s)
@@ -86,6 +89,21 @@ def check(case):
                 mixed.append(it.next())
         if [(t.type, t.text, t.lineno, t.offset) for t in mixed] != got:
             f.append(('token-iterator-modes:' + mode, '%s: list() gives %r, peek/for/next gives %r' % (short(s, 80), got[:6], [tuple(t)[:4] for t in mixed][:6])))
+        # the pattern handed over as its source text (the documented Union[Pattern, str])
+        got_src = [(t.type, t.text, t.lineno, t.offset) for t in lex(s, pattern=pat.pattern)]
+        if got_src != got:
+            f.append(('pattern-as-string:' + mode, '%s: compiled pattern gives %r, its source string gives %r' % (short(s, 80), got[:6], got_src[:6])))
+        # two consecutive for-loops over one iterator: the second continues where the first stopped
+        it = lex(s, pattern=pat)
+        two = []
+        for t in it:
+            two.append(t)
+            if len(two) == 2:
+                break
+        for t in it:
+            two.append(t)
+        if [(t.type, t.text, t.lineno, t.offset) for t in two] != got:
+            f.append(('token-iterator-two-loops:' + mode, '%s: list() gives %r, two for-loops give %r' % (short(s, 80), got[:6], [tuple(t)[:4] for t in two][:6])))
         if got != ref:
             f.append(('token-stream:' + mode, '%s: %r, reference scanner %r' % (short(s, 80), got[:8], ref[:8])))
         toks2 = list(lex(klines, pattern=pat))
@@ -115,6 +133,7 @@ def classes(case):
     if any(c in s for c in EXOTIC): out.append('exotic-blank')
     if len(rlex.split_lines(s)) > 1: out.append('multi-line')
     if len(s) > 12: out.append('long')
+    if case.get('debug'): out.append('debug-logging')
     return out
 
 
@@ -133,6 +152,8 @@ def _random(draw):
     else:
         s = draw(st.text(max_size=30))
         s = s.replace('\ud800', '')
+    if draw(st.integers(0, 7)) == 0:
+        return {'s': s, 'debug': True}
     return {'s': s}
 
 
@@ -143,6 +164,10 @@ def stages(tier):
              lambda tier: strings.prefix_chunks(ALPHA, L, 2),
              lambda ch: ({'s': s} for s in strings.strings_of(ch, ALPHA, L, 2)),
              'every string of length <= %d over %d symbols (%d)' % (L, len(ALPHA), strings.count(ALPHA, L))),
+        Enum('exhaustive-strings-debug-logging',
+             lambda tier: strings.prefix_chunks(ALPHA, L - 1, 1),
+             lambda ch: ({'s': s, 'debug': True} for s in strings.strings_of(ch, ALPHA, L - 1, 1)),
+             'every string of length <= %d over the same alphabet with the penman logger at DEBUG' % (L - 1)),
         Hyp('random', _random, 6000, 500000),
         Fuzz('coverage-guided-bytes', 0, 2000000, decode=lambda data: {'s': data.decode('utf-8', 'ignore')}, seeds=corpus.test_strings(60),
              dictionary=corpus.DICTIONARY, max_len=80),
